@@ -1,6 +1,7 @@
 package checks
 
 import (
+	"fmt"
 	"os"
 	"sort"
 	"strconv"
@@ -548,6 +549,66 @@ func checkC04(w *core.W) {
 			}
 		})
 	}
+	// ---- rank with every tie pattern: every assignment of keys {0,1,2} to 3 and to 4 rows (rows kept
+	// distinct by a second attribute), as a relation literal and as a set of tuple literals; the rank of
+	// a row is the number of rows with a strictly smaller key (ties followed by larger keys included)
+	rankE := obs.MustCompile("x rank (r: .k)")
+	for n := 3; n <= 4; n++ {
+		total := 1
+		for i := 0; i < n; i++ {
+			total *= 3
+		}
+		for code := 0; code < total; code++ {
+			k++
+			if !w.Mine(k) {
+				continue
+			}
+			keys := make([]int, n)
+			for i, c := 0, code; i < n; i, c = i+1, c/3 {
+				keys[i] = c % 3
+			}
+			w.Case(func() string { return fmt.Sprintf("rank-ties ## keys %v", keys) }, func() {
+				var rowsRel, rowsSet []string
+				var out []*model.V
+				for i, kv := range keys {
+					rowsRel = append(rowsRel, fmt.Sprintf("(%d,%d)", kv, i))
+					rowsSet = append(rowsSet, fmt.Sprintf("(k:%d, x:%d)", kv, i))
+					r := 0
+					for _, o := range keys {
+						if o < kv {
+							r++
+						}
+					}
+					out = append(out, model.TupMap(map[string]*model.V{"k": model.Num(float64(kv)), "x": model.Num(float64(i)), "r": model.Num(float64(r))}))
+				}
+				want := model.Set(out...)
+				for ri, src := range []string{"{|k,x| " + strings.Join(rowsRel, ", ") + "}", "{" + strings.Join(rowsSet, ", ") + "}"} {
+					v := obs.Run(src)
+					if !v.OK() {
+						w.Fail("wrong", "rank-ties|operand-does-not-evaluate", src, "")
+						continue
+					}
+					o := obs.Eval(rankE, obs.Scope("x", v.V))
+					w.Eval(true)
+					wit := "(" + src + ") rank (r: .k)"
+					switch {
+					case o.Panic != "":
+						w.Fail("panic", o.Panic, wit, "")
+					case o.Err != nil:
+						w.Fail("wrong", fmt.Sprintf("rank-ties|repr%d|error-instead-of-value", ri), wit, core.NormMsg(o.Err.Error()))
+					default:
+						if got, err := obs.Denote(o.V); err != nil || !model.Equal(got, want) {
+							g := "?"
+							if got != nil {
+								g = model.Src(got)
+							}
+							w.Fail("wrong", fmt.Sprintf("rank-ties|repr%d|wrong-result", ri), wit, "got "+g+" want "+model.Src(want))
+						}
+					}
+				}
+			})
+		}
+	}
 	if w.Shard == 0 && len(ops) > 10 {
 		w.Sample(map[string]string{"join": "(" + ops[len(ops)/2].src + ") <&> (" + ops[len(ops)/3].src + ")"})
 		w.Sample(map[string]string{"nest": "(" + ops[len(ops)/2].src + ") nest |..| n"})
@@ -556,6 +617,6 @@ func checkC04(w *core.W) {
 
 var C04 = core.Check{
 	ID: "C04", Level: "exploration", Fn: checkC04, Watchdog: 60 * time.Second,
-	Rule:   "operands = every relation over the headings {a},{b},{a,b},{b,c},{a,c},{a,b,c},{b,c,d},{a,b,d},{@,@item},{@,x},{@,@char},{@},{@,@value} with every body of <=2 (quick) / <=3 (thorough) rows over {0,1}, each in up to 7 construction paths (relation literal, column-reversed literal, set of tuple literals, => ., union of single rows, where-filtered superset, sugar literal); all ordered pairs x the 8 join operators compared with the natural join computed by definition and its documented projections, plus `result = literal` both ways round for <&> and <->; nest / nest ~ over every proper attribute subset with unnest (source level and Go API) inverting it; rank by every attribute (ties included). non-trivial = both operands non-empty / more than one row",
+	Rule:   "operands = every relation over the headings {a},{b},{a,b},{b,c},{a,c},{a,b,c},{b,c,d},{a,b,d},{@,@item},{@,x},{@,@char},{@},{@,@value} with every body of <=2 (quick) / <=3 (thorough) rows over {0,1}, each in up to 7 construction paths (relation literal, column-reversed literal, set of tuple literals, => ., union of single rows, where-filtered superset, sugar literal); all ordered pairs x the 8 join operators compared with the natural join computed by definition and its documented projections, plus `result = literal` both ways round for <&> and <->; nest / nest ~ over every proper attribute subset with unnest (source level and Go API) inverting it; rank by every attribute, and rank over every assignment of keys {0,1,2} to 3 and 4 rows (all tie patterns, two construction paths). non-trivial = both operands non-empty / more than one row",
 	Assume: []string{"reference model: natural join by definition; the seven variants as projections onto x∪z, y, {}, y∪z, x∪y, z, x", "bodies with two rows sharing @ and differing in the sugar payload are excluded (known-broken region covered by C01)", "unnest is exercised both from source and through rel.Unnest"},
 }
